@@ -572,7 +572,13 @@ def main(chk: core.Check) -> int:
                         "glob order fixed to ascending name (= creation order) in the harness; the model removes in that order",
                         "content-level theorem assumes atomic histories (no table update between a process loading a table and its first use of an uncached kernel); "
                         "the complementary case is the recorded finding c17-stale-process-compiles-after-update"]
-    chk.prove()
+    from translate import gen
+    g = gen.gen_cachepy()
+    if not g["ok"]:
+        chk.obligation_broken("translator", "translate _cache_numba.py (pairs, clearing decision, aggregates, removal loop, sweeps, import-time call) into Gen/CachePy.lean", g["error"])
+    else:
+        chk.coverage["cachepy_translation"] = {k: (v if len(str(v)) < 300 else str(v)[:300]) for k, v in g["info"].items()} if isinstance(g["info"], dict) else str(g["info"])[:300]
+    chk.prove(modules=["C17", "CacheTie"])
     try:
         diffs = correspond(chk, 400 if thorough else 60)
         chk.coverage["traces_validated_against_impl"] = len(chk.distinct)
